@@ -45,7 +45,8 @@ RULE = ('enum: every sequence of length <= 8 (quick: <= 6) over alphabets of siz
         'pair of families; every (start, end) in [-L-2, L+2]^2 for sampled sequences. obs: compiled '
         'function on every sequence of the same scope (batched), end = L (seeds 0..1 up to length 7) and the default end = -1, plus random '
         'sequences up to length 300, alphabets 2-8, batch <= 4, n in {1,2,5,20}, random regions incl. '
-        'negative bounds; seeds as Python int or numpy integer scalar / 0-d array (third call with int(seed) must agree). '
+        'negative bounds; region lengths at the integer-width boundaries 127..129, 255..257 (exact) and 32767..32769, '
+        '65535..65537 (one long sequence, n=1; shuffle evaluated through the spec only); seeds as Python int or numpy integer scalar / 0-d array (third call with int(seed) must agree). '
         'forms: one or two deviations from the plain call at a time (X dtype uint8..float64/bool, non-contiguous / view / '
         'expanded / requires_grad X, numpy-int start/end/n, omitted and None arguments, RandomState object / reused / no seed, '
         'verbose, n = 0, large seeds), each compared with its plain twin; an unrelated call between the two repetitions. shuf: every sequence of length <= 6 (quick: <= 5) batched, every region in '
@@ -125,6 +126,12 @@ def seq_lit(A, enc):
     return C.lst([C.zlist(c) for c in enc[1]])
 
 
+def lnat(n):
+    """a nat literal without common.nat's 5000 cap (long-sequence cases); built from a binary Z by Z.to_nat"""
+    n = int(n)
+    return C.nat(n) if n < 5000 else '(Z.to_nat %d)' % n
+
+
 def natl(xs):
     xs = [int(x) for x in xs]
     if xs and max(xs) <= 15:
@@ -132,13 +139,23 @@ def natl(xs):
     return '(%s)%%nat' % C.lst([str(x) for x in xs])
 
 
+CHUNK = 2000      # hex digits per numeral in long literals
+
+
 def digits(rows):
     return '0x1' + ''.join('%x' % int(k) for r in rows for k in r)
+
+
+def digits_long(rows):
+    flat = ''.join('%x' % int(k) for r in rows for k in r)
+    return C.lst(['0x1' + flat[i:i + CHUNK] for i in range(0, len(flat), CHUNK)])
 
 
 def tensor_lit(A, seqs):
     L = len(seqs[0]) if seqs else 0
     if seqs and L >= 1 and A <= 16 and all(k >= 0 for s in seqs for k in s):
+        if len(seqs) * L > 2 * CHUNK:
+            return '(T %s %s (dnbL %s %s %s))' % (lnat(A), lnat(L), lnat(A), lnat(L), digits_long(seqs))
         return '(T %s %s (dnb %s %s %s))' % (C.nat(A), C.nat(L), C.nat(A), C.nat(L), digits(seqs))
     rows = []
     for s in seqs:
@@ -562,6 +579,9 @@ def outcome_lit(inp, out, transpose):
     L = len(Y[0][0][1]) if k else 0
     if (Y and k >= 1 and L >= 1 and A <= 16 and all(len(row) == k for row in Y)
             and all(e[0] == 'c' and len(e[1]) == L for row in Y for e in row)):
+        if len(Y) * k * L > 2 * CHUNK:
+            return '(Ok (obnL %s %s %s %s))' % (lnat(A), lnat(L), lnat(k),
+                                                digits_long([e[1] for row in Y for e in row]))
         return '(Ok (obn %s %s %s %s))' % (C.nat(A), C.nat(L), C.nat(k),
                                            digits([e[1] for row in Y for e in row]))
     return '(Ok %s)' % C.lst([C.lst([seq_lit(A, e) for e in row]) for row in Y])
@@ -576,7 +596,7 @@ def coq_case(inp, out):
         X = tensor_lit(A, inp['seqs'])
     kind = inp['kind']
     start, end, n = eff(inp)
-    if kind == 'shuf' and inp.get('rs') in ('none', 'none_explicit'):
+    if kind == 'shuf' and (inp.get('rs') in ('none', 'none_explicit') or inp.get('spec_only')):
         call = '(CShufObs %s %s %s %s)' % (X, C.z(start), C.z(end), C.nat(max(n, 0)))
         o = outcome_lit(inp, out, True)
     elif kind == 'shuf':
@@ -757,6 +777,29 @@ def form_case(rng):
     return inp
 
 
+def long_case(rng, kind, Lr, A=None):
+    """a region of exactly Lr positions inside a sequence a few positions longer (integer-width
+    boundaries of index vectors); regions beyond 3000 positions are evaluated through the spec only"""
+    A = A or rng.choice([2, 3, 4])
+    a = rng.choice([0, 2, 3])
+    L = a + Lr + rng.choice([0, 1, 4])
+    if rng.random() < 0.5:      # composition differs along the sequence: a wrong index shows in the counts
+        half = L // 2
+        s = [rng.randrange(max(1, A // 2)) for _ in range(half)] + \
+            [A // 2 + rng.randrange(A - A // 2) for _ in range(L - half)]
+    else:
+        s = rand_seq(rng, A, L, rng.random() < 0.5)
+    c = {'kind': kind, 'A': A, 'seqs': [s], 'start': a, 'end': a + Lr, 'n': 1,
+         'seed': rng.choice([0, 1, 2, 3]), 'seed_type': 'int'}
+    if kind == 'shuf' and Lr > 3000:
+        c['spec_only'] = True
+    return c
+
+
+WIDTHS_SMALL = (127, 128, 129, 255, 256, 257)
+WIDTHS_LONG = (32767, 32768, 32769, 65535, 65536, 65537)
+
+
 def generate(tier, rng):
     quick = tier != 'thorough'
     # ---------------- enum: the pure-Python walk under every outcome of its draws
@@ -792,6 +835,14 @@ def generate(tier, rng):
                             plan.append([random_family(A, r, rng)])
                         yield {'kind': 'enum', 'A': A, 'seqs': [s, other], 'start': start, 'end': end,
                                'plan': plan}
+    # ---------------- integer-width boundaries of the region length (int8 / uint8 index vectors)
+    for Lr in WIDTHS_SMALL:
+        for kind in ('shuf', 'obs'):
+            for _ in range(1 if quick else 3):
+                yield long_case(rng, kind, Lr)
+    # int16 / uint16 widths: long regions, one sequence, n = 1 (kept apart so that they end up in
+    # different coqc shards: each needs some hundred MB)
+    yield long_case(rng, 'shuf', 32769 if quick else 32768, 4)
     # ---------------- obs: the compiled function
     for A in (2, 3, 4):
         for L in range(1, maxL + 1):
@@ -823,6 +874,10 @@ def generate(tier, rng):
             if c['xform'] == 'expanded':
                 c['seqs'] = [list(seqs[0]) for _b in seqs]
         yield c
+    yield long_case(rng, 'obs', 32769, 4)
+    if not quick:
+        for Lr in (32767, 32768, 65536, 65537):
+            yield long_case(rng, 'obs', Lr)
     # ---------------- shuf (the permutation does not depend on the data: one batch of sequences
     # per alphabet and length, every region)
     for A in (2, 3, 4):
@@ -856,6 +911,10 @@ def generate(tier, rng):
             if c['xform'] == 'expanded':
                 c['seqs'] = [list(seqs[0]) for _b in seqs]
         yield c
+    yield long_case(rng, 'shuf', 65537, 2)
+    if not quick:
+        for Lr in (32767, 32769, 40000, 65535, 65536):
+            yield long_case(rng, 'shuf', Lr)
     # ---------------- forms: every accepted input form / argument type / default, one or two
     # deviations from the plain call at a time (see design/C02.md "Coverage audit")
     for _ in range(300 if quick else 1500):
